@@ -325,6 +325,20 @@ impl Driver {
                 }
             }
             start = end;
+            // now and then an empty receive buffer between two pieces (a transport read that returned nothing)
+            if self.chunk_mode == ChunkMode::Random && end < bytes.len() && !self.dead && self.cut_rng.below(4) == 0 {
+                match self.conn.recv(&[]) {
+                    Err(p) => {
+                        let call = Call::Recv { bytes: vec![] };
+                        self.panic_found(&call, p);
+                        return all;
+                    }
+                    Ok((evs, _)) => {
+                        let call = Call::Recv { bytes: vec![] };
+                        all.extend(self.after(call, evs));
+                    }
+                }
+            }
         }
         let _ = op_start;
         self.op_trace.push(format!("feed({}) => {}", hexs(bytes), evs_short(&normalise(&all))));
@@ -552,7 +566,7 @@ impl Driver {
         }
         let tam_p = if f == Focus::Alias { 95 } else { 50 };
         if self.r.below(100) < tam_p {
-            ps.push(p_u16(P_TAM, *self.r.pick(&[0u16, 1, 2, 3, 3])));
+            ps.push(p_u16(P_TAM, if self.r.below(30) == 0 { 65535 } else { *self.r.pick(&[0u16, 1, 2, 3, 3]) }));
         }
         let mps_p = if f == Focus::Size { 90 } else if f == Focus::Hostile { 40 } else { 25 };
         if self.r.below(100) < mps_p {
@@ -567,7 +581,7 @@ impl Driver {
             ps.push(p_u32(P_SEI, *self.r.pick(&[0u32, 50, 50, u32::MAX])));
         }
         if for_connack && self.r.below(100) < (if f == Focus::Timers { 50 } else { 20 }) {
-            ps.push(p_u16(P_SKA, *self.r.pick(&[0u16, 1, 7])));
+            ps.push(p_u16(P_SKA, if self.r.below(15) == 0 { *self.r.pick(&[21846u16, 65535]) } else { *self.r.pick(&[0u16, 1, 7]) }));
         }
         ps
     }
@@ -575,15 +589,22 @@ impl Driver {
         let ver = self.ver();
         let clean = self.r.below(100) < 40;
         self.last_clean = clean;
-        let ka = *self.r.pick(&[0u16, 0, 1, 10]);
+        let ka = if self.r.below(25) == 0 { *self.r.pick(&[21845u16, 21846, 43691, 65535]) } else { *self.r.pick(&[0u16, 0, 1, 10]) };
+        // (contents dimension: now and then a will and credentials - nothing in the connection layer may depend on them)
+        let will = if self.r.below(12) == 0 {
+            Some(Will { topic: b"w".to_vec(), payload: b"gone".to_vec(), qos: self.r.below(3) as u8, retain: self.r.bool(), props: if ver == Ver::V5 && self.r.bool() { vec![p_u32(24, 5)] } else { vec![] } })
+        } else {
+            None
+        };
+        let (user, pass) = if self.r.below(12) == 0 { (Some(b"u".to_vec()), if self.r.bool() { Some(b"p".to_vec()) } else { None }) } else { (None, None) };
         Pkt::Connect {
             ver,
             clean,
             keep_alive: ka,
             client_id: b"cid".to_vec(),
-            will: None,
-            user: None,
-            pass: None,
+            will,
+            user,
+            pass,
             props: if ver == Ver::V5 { self.limits_props(false) } else { vec![] },
         }
     }
@@ -625,6 +646,33 @@ impl Driver {
             props.push(Prop { id: 38, val: PVal::Pair(b"k".to_vec(), vec![b'v'; l]) });
         }
     }
+    /// contents dimension: the other PUBLISH properties travel with the message untouched (stored copy, retransmission,
+    /// delivery), in their order, before or after the Topic Alias
+    fn other_publish_props(&mut self, props: &mut Vec<Prop>) {
+        if self.r.below(100) >= 10 {
+            return;
+        }
+        for _ in 0..1 + self.r.usize(3) {
+            let p = match self.r.below(7) {
+                0 => p_byte(1, self.r.below(2) as u8),
+                1 => p_u32(2, *self.r.pick(&[0u32, 30, u32::MAX])),
+                2 => p_str(3, "text/plain"),
+                3 => p_str(8, "re/ply"),
+                4 => Prop { id: 9, val: PVal::Bin(vec![1, 2, 3]) },
+                5 => Prop { id: 38, val: PVal::Pair(b"a".to_vec(), b"b".to_vec()) },
+                _ => Prop { id: 38, val: PVal::Pair(vec![], vec![]) },
+            };
+            // (the once-only ones only once)
+            if p.id != 38 && props.iter().any(|q| q.id == p.id) {
+                continue;
+            }
+            if self.r.bool() {
+                props.insert(0, p);
+            } else {
+                props.push(p);
+            }
+        }
+    }
     fn our_publish(&mut self, qos: u8, id: Option<u32>) -> Pkt {
         let ver = self.ver();
         let mut topic = self.r.pick(&TOPICS).as_bytes().to_vec();
@@ -632,12 +680,13 @@ impl Driver {
         if ver == Ver::V5 {
             let alias_p = if self.sc.focus == Focus::Alias { 60 } else { 25 };
             if self.r.below(100) < alias_p {
-                let a = if self.r.below(20) == 0 { 9 } else { self.r.range(1, 3) as u16 };
+                let a = if self.r.below(20) == 0 { *self.r.pick(&[9u16, 65535, 0]) } else { self.r.range(1, 3) as u16 };
                 props.push(p_u16(P_TA, a));
                 if self.r.below(100) < 45 {
                     topic.clear();
                 }
             }
+            self.other_publish_props(&mut props);
         }
         let pl = match self.r.below(8) {
             0 => 0,
@@ -660,11 +709,14 @@ impl Driver {
         let mut topic = self.r.pick(&TOPICS).as_bytes().to_vec();
         let mut props = Vec::new();
         if ver == Ver::V5 && self.r.below(100) < (if self.sc.focus == Focus::Alias { 60 } else { 20 }) {
-            let a = if self.r.below(15) == 0 { 9 } else { self.r.range(1, 3) as u16 };
+            let a = if self.r.below(15) == 0 { *self.r.pick(&[9u16, 65535]) } else { self.r.range(1, 3) as u16 };
             props.push(p_u16(P_TA, a));
             if self.r.below(100) < 45 {
                 topic.clear();
             }
+        }
+        if ver == Ver::V5 {
+            self.other_publish_props(&mut props);
         }
         let dup = qos > 0 && self.r.below(4) == 0;
         if ver == Ver::V5 {
@@ -676,9 +728,9 @@ impl Driver {
         let ver = self.ver();
         let (code, props) = if ver == Ver::V5 {
             match (fail, self.r.below(3)) {
-                (true, _) => (Some(if matches!(kind, AckKind::Pubrel | AckKind::Pubcomp) { 0x92 } else { 0x80 }), if self.r.bool() { Some(vec![]) } else { None }),
+                (true, _) => (Some(if matches!(kind, AckKind::Pubrel | AckKind::Pubcomp) { 0x92 } else { *self.r.pick(&[0x80u8, 0x80, 0x83, 0x87, 0x90, 0x91, 0x97, 0x99]) }), if self.r.bool() { Some(vec![]) } else { None }),
                 (false, 0) => (None, None),
-                (false, 1) => (Some(0), None),
+                (false, 1) => (Some(if matches!(kind, AckKind::Puback | AckKind::Pubrec) && self.r.below(4) == 0 { 0x10 } else { 0 }), None),
                 _ => (Some(0), Some(vec![])),
             }
         } else {
